@@ -192,6 +192,11 @@ func Compile(originConf *Config, exprStr string) (*Expr, error) {
 		return nil, res.err
 	}
 
+	// event nodes double the program, whose size must still fit the int16 program counter
+	if (conf.CompileOptions[ReportEvent] || conf.CompileOptions[Debug]) && res.size*2 > math.MaxInt16 {
+		return nil, fmt.Errorf("expression cannot exceed a maximum of %d nodes when reporting events, got: [%d]", math.MaxInt16/2, res.size)
+	}
+
 	expr := buildExpr(conf, ast, res.size)
 
 	return expr, nil
